@@ -1,4 +1,5 @@
 """Rules on the dynamic solvers (src/dynamics) shared by C08 and C09."""
+import re
 from ..core import (
     is_try_residual,
     Site,
@@ -451,3 +452,41 @@ def rule_log_and_replay(ctx):
                     ok = bool(reps) and all(any(qb.dominates(rp, s) for rp in reps) for s in solves)
                     r.check(ok, qb.id, "solve-before-replay", "pending updates are replayed before every SAT call of the query", "a SAT call of the query is not preceded by the replay of pending updates", qb.loc())
     r.floor(n_q, 5, "query methods with SAT calls in buffered dynamic solvers")
+
+
+def rule_cache_kinds(ctx):
+    """C08: a query consults only the cache of its own kind"""
+    prog = ctx.prog
+    r = ctx.rule(
+        "cache-per-query-kind",
+        "in the dynamic solvers a skeptical-acceptance method never reads the credulous answer cache and a credulous-acceptance method never reads "
+        "the skeptical one (directly or through helpers): `refused credulously` does not imply `refused skeptically` when no extension exists, "
+        "and the cached certificates answer different questions",
+    )
+    CRED, SKEP = "solvers::specs::CredulousAcceptanceComputer", "solvers::specs::SkepticalAcceptanceComputer"
+    lookups = {"credulous": r"dynamics::.*BufferedDynamicConstraintsEncoder::<T>::is_credulously_accepted$|dynamics::.*BufferedDynamicConstraintsEncoder::is_credulously_accepted$", "skeptical": r"dynamics::.*BufferedDynamicConstraintsEncoder::<T>::is_skeptically_accepted$|dynamics::.*BufferedDynamicConstraintsEncoder::is_skeptically_accepted$"}
+    n = n_look = 0
+    for tr, mine, other in ((CRED, "credulous", "skeptical"), (SKEP, "skeptical", "credulous")):
+        for imp in prog.impls_of_trait(tr):
+            if not (imp.get("self_adt") or "").startswith("dynamics::"):
+                continue
+            for m in imp["methods"]:
+                b = prog.lib(m["path"])
+                if b is None:
+                    continue
+                n += 1
+                reach = prog.reachable_from([b], virtual_dispatch=False)
+                bad = []
+                for x in reach.values():
+                    # stay inside the methods of this trait and the helpers: another acceptance trait's methods are judged on their own
+                    if x.impl and x.impl.get("trait") in (CRED, SKEP) and x.impl.get("trait") != tr:
+                        continue
+                    for s in x.calls():
+                        nm = strip_generics(callee_name(callee_of(s)) or "")
+                        if re.search(r"^dynamics::.*BufferedDynamicConstraintsEncoder::is_%s_accepted$" % ("credulously" if other == "credulous" else "skeptically"), nm):
+                            bad.append(s)
+                        if re.search(r"^dynamics::.*BufferedDynamicConstraintsEncoder::is_%s_accepted$" % ("credulously" if mine == "credulous" else "skeptically"), nm):
+                            n_look += 1
+                r.check(not bad, b.id, "reads-%s-cache" % other, "%s query reads only the %s cache" % (mine, mine), "the %s-acceptance method reads the %s answer cache: a cached answer to the other question decides this one" % (mine, other), bad[0].loc() if bad else b.loc())
+    r.floor(n, 10, "acceptance methods of the dynamic solvers")
+    r.floor(n_look, 4, "cache look-ups of the matching kind")
